@@ -448,7 +448,7 @@ type httpResult struct {
 	unsettled   bool
 }
 
-func runHTTPOnce(r *mon.Run, c httpCase, payload replayCase) (res httpResult) {
+func runHTTPOnce(r *mon.Run, c httpCase, payload replayCase, watch time.Duration) (res httpResult) {
 	base := runtime.NumGoroutine()
 	logger := quietLogger()
 	mock := clock.NewMock(time.Unix(1700000000, 0))
@@ -487,7 +487,7 @@ func runHTTPOnce(r *mon.Run, c httpCase, payload replayCase) (res httpResult) {
 			return false
 		}
 	}
-	mon.WaitUntil(callbackWatch, func() bool { return p.calls.Load() >= 1 || (isReturned() && panicked.Load()) })
+	mon.WaitUntil(watch, func() bool { return p.calls.Load() >= 1 || (isReturned() && panicked.Load()) })
 	res.panicked = panicked.Load()
 	res.never = p.calls.Load() == 0 && !res.panicked
 	res.cancelled = cancelled.Load()
@@ -525,8 +525,9 @@ func batchClass(n int) string {
 	return "many"
 }
 
-// neverSeen remembers the (family, class) pairs for which a missing callback has been confirmed: every
-// further case of that pair would cost two watchdog periods and add nothing but a count.
+// neverSeen remembers the families and (family, class) pairs for which a missing callback has been confirmed
+// (20 s watchdog, twice). Further cases of that pair are skipped; other classes of that family run with a
+// shorter watchdog and without the confirmation run.
 var neverSeen sync.Map
 
 func runHTTPCase(r *mon.Run, c httpCase) {
@@ -542,7 +543,12 @@ func runHTTPCase(r *mon.Run, c httpCase) {
 	}
 	for rep := 0; rep < reps; rep++ {
 		r.Case("http %s rep=%d", js(c), rep)
-		res := runHTTPOnce(r, c, payload)
+		watch := callbackWatch
+		_, famSeen := neverSeen.Load(fam)
+		if famSeen {
+			watch = settleWatch
+		}
+		res := runHTTPOnce(r, c, payload, watch)
 		if res.setupFailed {
 			return
 		}
@@ -552,10 +558,14 @@ func runHTTPCase(r *mon.Run, c httpCase) {
 		}
 		if res.never {
 			// deterministic script: confirm once more before calling it a violation
-			again := runHTTPOnce(r, c, payload)
+			again := res
+			if !famSeen {
+				again = runHTTPOnce(r, c, payload, watch)
+			}
 			if again.never {
-				r.Violation(fmt.Sprintf("%s:callback-never:%s", fam, c.Class), "no callback within 20s, twice in a row. "+describe(again), payload)
+				r.Violation(fmt.Sprintf("%s:callback-never:%s", fam, c.Class), fmt.Sprintf("no callback within %v (confirmed by a second run: %v). ", watch, !famSeen)+describe(again), payload)
 				neverSeen.Store(fam+"|"+c.Class, true)
+				neverSeen.Store(fam, true)
 				r.Eval(1)
 				return
 			} else {
